@@ -410,9 +410,17 @@ def memBD : BrickDomain → Str → Bool
   | .top, _ => true
   | .val b, s => memBrick b s
 
-def memList : List BrickDomain → Str → Bool
-  | [], s => s.isEmpty
-  | x :: xs, s => (List.range (s.length + 1)).any (fun i => memBD x (s.take i) && memList xs (s.drop i))
+/-- the remainders `r` of the splits `s = u ++ r` with `u` in the language of `x` -/
+def remsAfter (x : BrickDomain) (s : Str) : List Str :=
+  (List.range (s.length + 1)).filterMap (fun i => if memBD x (s.take i) then some (s.drop i) else none)
+
+/-- does some string of `rems` belong to the language of the list? (the set of remainders is kept
+duplicate-free, so the work is polynomial in the length of the list) -/
+def memRems : List BrickDomain → List Str → Bool
+  | [], rems => rems.any List.isEmpty
+  | x :: xs, rems => memRems xs (canon (rems.flatMap (remsAfter x)))
+
+def memList (l : List BrickDomain) (s : Str) : Bool := memRems l [s]
 
 def memBricks : BricksDomain → Str → Bool
   | .top, _ => true
